@@ -12,29 +12,56 @@ def c13_nontrivial(case, v):
     if k in ("sol", "lil", "tsp"):
         return bool(case.get("in_hyp", True)) and info.get("customers", 0) >= 3 and \
             info.get("cap_accept", 0) > 0 and info.get("cap_reject", 0) > 0
+    if k == "bind":
+        return info.get("stops", 0) >= 2
     return k in ("init", "initread") and info.get("routes", 0) >= 2
 
 
 PROP = dict(
     proof_modules=["VrpProofs.C13", "VrpProofs.C13.Basic", "VrpProofs.C13.Solomon", "VrpProofs.C13.Capacity",
-                   "VrpProofs.C13.Tsplib", "VrpProofs.C13.Lilim", "VrpProofs.C13.Capacity2", "VrpProofs.C13.Init"], model_modules=["VrpModel.C13"], drv="drv_c13", bin="c13",
+                   "VrpProofs.C13.Tsplib", "VrpProofs.C13.Lilim", "VrpProofs.C13.Capacity2", "VrpProofs.C13.Init",
+                   "VrpProofs.C13.Binds"],
+    model_modules=["VrpModel.C13"], drv="drv_c13", bin="c13",
     nontrivial=c13_nontrivial,
     rule="sol/lil/tsp: well-formed generated file with >= 3 customers for which the generated tours contain at least one that "
-         "the file's capacity accepts and one that it rejects; init/initread: solution text with >= 2 non-empty routes; "
-         "distinct = SHA-256 of the canonical case input",
+         "the file's capacity accepts and one that it rejects; bind: a non-empty feasible tour plus a customer whose window, the "
+         "depot's closing time or the capacity sits at the boundary (-1/0/+1) of what appending it needs; init/initread: solution "
+         "text with >= 2 non-empty routes; distinct = SHA-256 of the canonical case input",
     modelled="read_solomon / read_lilim / read_tsplib at token level (header skipping, first-N-token tuples, Li&Lim relation "
-             "pairing through the id map, TSPLIB sections / id-1 naming / DIMENSION vehicles, error kinds), CoordIndex::collect, "
-             "create_transport (rounded: nearest integer; unrounded: floor + integrality), create_fleet_with_distance_costs, "
-             "write_text_solution, read_init_solution",
-    traced="every case runs the String, BufReader and vrp-cli get_formats entry points of the real readers/writers on rendered text",
-    out_of_model="character-level tokenisation (split_whitespace, parse::<i32>/f64+round, split(':'), trim), f64 sqrt in unrounded mode "
-                 "(observed as floor + is-integral), goal/objective composition, job index/clusters, random choice among identical vehicles",
-    assumptions=["all numbers are i32 (the readers unwrap parse::<i32>), ids/service times non-negative, at least one vehicle",
-                 "files whose numeric positions hold non-numeric tokens make the real readers panic (unwrap): never generated"],
+             "pairing through the id map with last-row-wins, sign convention of the pair, TSPLIB key-value header / sections / id-1 "
+             "naming / DIMENSION vehicles, every error kind), CoordIndex::collect, create_transport (rounded: nearest integer; "
+             "unrounded: floor + integrality), create_fleet_with_distance_costs, write_text_solution, read_init_solution",
+    traced="every case runs the String, BufReader and vrp-cli get_formats entry points of the real readers / writers on rendered "
+           "text and requires identical results; stream bind runs the real goal.evaluate (route + activity level) and "
+           "eval_job_insertion_in_route on the parsed problem",
+    out_of_model="character-level tokenisation (split_whitespace, parse::<i32>, parse::<f64>+round, split(':'), trim) and f64 sqrt in "
+                 "unrounded mode (observed as floor + is-integral) are covered by the correspondence only; goal/objective "
+                 "composition, job neighbourhood index and clusters, the random choice among identical vehicles",
+    assumptions=["all numbers are i32 (the readers unwrap parse::<i32>), ids and service times non-negative, at least one vehicle; "
+                 "capacity theorems for Solomon/TSPLIB: demands non-negative",
+                 "files whose numeric positions hold non-numeric tokens, a fleet size of 0 or a Li&Lim pickup naming a missing "
+                 "row make the real readers panic (unwrap / assert): marked `unmodelled`, never generated",
+                 "TSPLIB: the real reader iterates a HashMap, so job order and location indices are compared sorted by id / as "
+                 "coordinates; Solomon and Li&Lim location indices are compared exactly"],
 )
 
 META = dict(
-    text="Proof (Lean 4) about token-level models of the three readers + correspondence on generated files.",
-    note=COMMON_NOTE,
-    technique="Lean 4 theorems over a token-level model of the readers + differential correspondence on rendered text files",
+    text="Proof (Lean 4), for ALL well-formed files of any size in the three grammars (Solomon, Li&Lim, TSPLIB CVRP/EUC_2D; "
+         "well-formedness is an explicit decidable predicate, real example files satisfy it): the token-level reader model applied to the "
+         "printed file yields a problem whose observable content (vehicles, capacity, depot, shift times, per job id / coordinates through "
+         "the coord index / demand 4-tuple / window / service time, routing matrix) decodes to exactly the instance the file denotes "
+         "(solomon_parse_print, lilim_parse_print + every row in exactly one request, tsplib_parse_print); roundSqrt is the unique nearest "
+         "integer to the Euclidean distance, ties impossible (euclid_rounded_correct, parsed_distances); the capacity constraint on the "
+         "parsed 4-tuples accepts exactly the tours the file's demands and capacity allow (capacity_binds_as_file_* — falsified by a dropped "
+         "or sign-flipped demand) and appending a customer is feasible exactly when the file's windows, service times, distances and "
+         "capacity allow it (windows_and_capacity_bind_as_file); a complete solution written as text and read back as initial solution "
+         "gives the same routes and nothing unassigned (init_text_roundtrip). Tie: generated files (duplicate coordinates, zero demands, "
+         "shuffled / sparse ids, whitespace, CRLF, 28.00000-style numbers, varying headers) rendered to text and read by the real "
+         "read_solomon/read_lilim/read_tsplib through String, BufReader and vrp-cli get_formats; index-free dump compared with the model, "
+         "the specification evaluated on the implementation's own dump; malformed files compared on the error kind; real text writer + "
+         "real initial-solution reader on complete, partial and decorated solution texts; the real constraint evaluation "
+         "(goal.evaluate, eval_job_insertion_in_route) on boundary cases of capacity, customer window and depot closing time.",
+    note=COMMON_NOTE + " Out of model: character-level tokenisation and unrounded f64 sqrt (correspondence only).",
+    technique="Lean 4 theorems over a token-level model of the readers, the routing matrix and the text writer/reader + differential "
+              "correspondence on rendered text files through every public entry point, incl. the real constraint evaluation",
 )
